@@ -1588,6 +1588,8 @@ parse_citation:
 					print_const("\\footnote{");
 					temp_note = stack_peek_index(scratch->used_footnotes, temp_short - 1);
 
+					// Same layout as for the first use
+					scratch->padded = 2;
 					mmd_export_note_content_latex(out, source, temp_note, scratch);
 					print_const("}");
 				} else {
